@@ -164,7 +164,10 @@ func (d *duplexHTTPCall) Read(data []byte) (int, error) {
 		return 0, fmt.Errorf("nil response from %v", d.request.URL)
 	}
 	n, err := d.response.Body.Read(data)
-	return n, wrapIfRSTError(wrapIfContextError(err))
+	if err != nil && !errors.Is(err, io.EOF) {
+		err = wrapIfRSTError(wrapIfContextDone(d.ctx, err))
+	}
+	return n, err
 }
 
 func (d *duplexHTTPCall) CloseRead() error {
@@ -173,9 +176,9 @@ func (d *duplexHTTPCall) CloseRead() error {
 		return nil
 	}
 	if err := discard(d.response.Body); err != nil {
-		return wrapIfRSTError(err)
+		return wrapIfRSTError(wrapIfContextDone(d.ctx, err))
 	}
-	return wrapIfRSTError(d.response.Body.Close())
+	return wrapIfRSTError(wrapIfContextDone(d.ctx, d.response.Body.Close()))
 }
 
 // ResponseStatusCode is the response's HTTP status code.
@@ -253,7 +256,7 @@ func (d *duplexHTTPCall) makeRequest() {
 	// establish the receive side of the stream.
 	response, err := d.httpClient.Do(d.request)
 	if err != nil {
-		err = wrapIfContextError(err)
+		err = wrapIfContextDone(d.ctx, err)
 		err = wrapIfLikelyH2CNotConfiguredError(d.request, err)
 		err = wrapIfLikelyWithGRPCNotUsedError(err)
 		err = wrapIfRSTError(err)
